@@ -24,6 +24,32 @@ class RedirectxCommand(sl_commands.RedirectCommand):
 
 sl_commands.add_commands(RedirectxCommand)
 
+INNER_SCRIPTS = [b"keep;", b"", b"if true { stop; }\n" * 40, b"foobar;", b'redirect "a@b";\n\n\n',
+                 b'if header :is "a" "b" { discard; } else { keep; }', b'"unterminated',
+                 b"# only a comment\n" * 3, b"if anyof (true, false) { keep; }" + b" " * 300]
+NESTED = {"parses": 0, "inner": None}  # inner: index forced by a check, else by value length
+
+
+class IncludexCommand(sl_commands.ActionCommand):
+    """A custom command that validates another script when it is complete (the natural way
+    to write an RFC 6609 `include`): a second Parser object runs to its end while the first
+    one is between two tokens.  The process-wide list of loaded extensions is saved and put
+    back, as a careful plug-in would."""
+    args_definition = [{"name": "value", "type": ["string"], "required": True}]
+
+    def complete_cb(self):
+        saved = sl_commands.RequireCommand.loaded_extensions
+        try:
+            v = str(self.arguments.get("value", ""))
+            k = NESTED["inner"] if NESTED["inner"] is not None else len(v)
+            sl_parser.Parser().parse(INNER_SCRIPTS[k % len(INNER_SCRIPTS)])
+            NESTED["parses"] += 1
+        finally:
+            sl_commands.RequireCommand.loaded_extensions = saved
+
+
+sl_commands.add_commands(IncludexCommand)
+
 
 SLOW = {"first": 0, "confirmed": 0}
 
